@@ -12,8 +12,9 @@ RULE = ("cases = (predictor class (3 conditional families x Predictor/ExpPredict
         "two output columns); query rows keep a margin >= 0.05*scale from every conditioning point in EVERY column (time "
         "included) so that central differences resolve the kernel; distinct = distinct (class, kernel, data) hash; "
         "non-trivial = gradient has a non-zero entry")
-PARTIAL = ["predictors with several output columns (fixed defect C12:hld-raises:multi-output): gradient (n,k,d), hessian "
-           "(n,k,d,d) and the (n,k) sign/log-determinant pairs are checked by finite differences / numpy slogdet; the model "
+PARTIAL = ["predictors with a 2-D output of k >= 1 columns (fixed defects C12:hld-raises:multi-output, "
+           "C12:shape:hld:single-column): gradient (n,k,d), hessian (n,k,d,d) and the (n,k) sign/log-determinant pairs - "
+           "(n,1) for a single column - are checked by finite differences / numpy slogdet; the model "
            "has the shape logic (Lean hld_columns_target, hld_shape_columns, hld_one_column) but no closed form per column "
            "beyond running the driver once per column",
            "JAX autodiff is an external call: the Lean model takes it as the operator `Diff.jac` with the contract 'returns "
@@ -367,12 +368,14 @@ def hessian_check(res, p, pred, kind, cname, Xq, T, q, k, ds, W, jit_modes, cmas
                             f"{k} output columns: {str(e)[:120]}", p, signature="C12:hld-raises:multi-output")
             return
         s0, l0 = np.linalg.slogdet(Hk)
-        wanth = (q,) if k == 1 else (q, k)        # a single (d, d) block is returned unbatched
+        # one pair per row and output column, the column axis kept like in value (q, k), gradient (q, k, d) and hessian
+        # (q, k, d, d) - also for a single column (finding H3-C3, repaired: it was returned unbatched, (q,))
+        wanth = (q, k)
         res.count("hld_output_columns=%d" % k)
         if s.shape != wanth or l.shape != wanth:
             res.oracle_fail(f"{cname}.hessian_log_determinant of a predictor with {k} output column(s) has the wrong "
                             "shape", p, detail={"shape": list(s.shape), "expected": list(wanth)},
-                            signature="C12:shape:hld:multi-output")
+                            signature="C12:shape:hld:single-column" if k == 1 else "C12:shape:hld:multi-output")
             return
         s0, l0 = s0.reshape(wanth), l0.reshape(wanth)
         cond = np.linalg.cond(Hk).reshape(wanth)
@@ -516,6 +519,9 @@ def run(ctx, res):
         pr = gen_case(rng, fam, kind, 2, [700, 515, 1030][int(rng.integers(3))], "base", 1, (bool(rng.integers(2)),), True)
         pr["op"] = "rows"
         run_case(ctx, res, pr)
+    # always run (regression of finding H3-C3, signature C12:shape:hld:single-column): values given as ONE 2-D column
+    run_case(ctx, res, gen_case(rng, ["full", "lm"][int(rng.integers(2))], "P", menu[0][0], menu[0][1], "base", -1, (False,),
+                                True))
     i = 0
     did_multi = False
     while True:
